@@ -309,13 +309,499 @@ def _same_amount(a, b):
     return fa is not None and fa == fb
 
 
+# ---------------------------------------------------------------- R-C07-2
+def rule_containment(prog, fixture=False):
+    from ..exc import MayThrow
+    r = RuleResult("R-C07-2", "in main, every call that may (transitively) throw lies inside a try whose "
+                   "handlers catch what it can throw (everything derived from std::exception)",
+                   floor=0 if fixture else 3)
+    mt = MayThrow(prog)
+    main = prog.fn1("main")
+    for site in mt._sites[main.uid]:
+        node, kind, payload = site
+        raised = mt.site_throws(main, site)
+        what = notpl(node.get("q") or node.get("n") or kind) if node is not None else kind
+        key = "%s::main::%s@%s" % (main.relfile(), what, _nth(main, node))
+        if not raised:
+            r.add(key, main.loc(node), True, "cannot throw", nontrivial=False)
+            continue
+        esc = mt._filter(main, node, raised)
+        if esc:
+            c = sorted(esc)[0]
+            chain = []
+            if kind == "call":
+                ts = [t for t in prog.call_targets(main, node) if c in mt.sets[t.uid]]
+                if ts:
+                    chain = mt.explain(ts[0], c)
+            r.add(key, main.loc(node), False,
+                  "%s may throw %s here, outside any handler that catches it: the program would end in "
+                  "std::terminate()" % (what, ", ".join(sorted(esc))), path=chain)
+        else:
+            r.add(key, main.loc(node), True, "may throw %s; caught by an enclosing handler" % ", ".join(sorted(raised)))
+    r.info["functions_that_may_throw"] = sum(1 for v in mt.sets.values() if v)
+    return r
+
+
+def _nth(fn, node):
+    """Ordinal of the node among same-kind, same-callee nodes of the function
+    (stable under unrelated edits, unlike a line number)."""
+    if node is None:
+        return 0
+    k = 0
+    for n in fn.walk():
+        if n is node:
+            return k
+        if n.get("k") == node.get("k") and n.get("fn") == node.get("fn"):
+            k += 1
+    return k
+
+
+# ---------------------------------------------------------------- R-C07-3
+TERMINATORS = {"abort", "exit", "_exit", "_Exit", "quick_exit", "std::terminate", "std::abort", "std::exit",
+               "std::quick_exit", "std::_Exit", "raise", "kill", "pthread_exit"}
+
+
+def value_set(prog, fn, e, depth=0):
+    """Set of constant values an int expression can take, or None if unknown."""
+    e = strip_all(e)
+    if e is None:
+        return None
+    v = folded(e)
+    if v is not None:
+        return {v}
+    k = e.get("k")
+    if k == "ConditionalOperator":
+        a = value_set(prog, fn, e["c"][1], depth)
+        b = value_set(prog, fn, e["c"][2], depth)
+        return None if a is None or b is None else a | b
+    if is_call(e) and depth < 4:
+        ts = prog.call_targets(fn, e)
+        if not ts:
+            return None
+        out = set()
+        for t in ts:
+            rs = [n for n in t.walk() if n.get("k") == "ReturnStmt"]
+            if not rs:
+                return None
+            for rt in rs:
+                if not rt.get("c"):
+                    return None
+                vs = value_set(prog, t, rt["c"][0], depth + 1)
+                if vs is None:
+                    return None
+                out |= vs
+        return out
+    if k == "DeclRefExpr" and e.get("dk") == "Var":
+        # local assigned only constants
+        vals = set()
+        for n in fn.walk():
+            if n.get("k") == "VarDecl" and n.get("d") == e.get("d"):
+                if n.get("c"):
+                    vs = value_set(prog, fn, n["c"][0], depth + 1)
+                    if vs is None:
+                        return None
+                    vals |= vs
+            elif n.get("k") == "BinaryOperator" and n.get("op") == "=":
+                if flow.lvalue_root(n["c"][0]) == e.get("d"):
+                    vs = value_set(prog, fn, n["c"][1], depth + 1)
+                    if vs is None:
+                        return None
+                    vals |= vs
+            elif n.get("k") in ("CompoundAssignOperator", "UnaryOperator") and n.get("op") in flow.ASSIGN_OPS | {"++", "--"}:
+                if flow.lvalue_root(n["c"][0]) == e.get("d"):
+                    return None
+        return vals or None
+    return None
+
+
+def _exhaustive_switch(prog, fn, sw):
+    cond = strip_all(sw["c"][0]) if sw.get("c") else None
+    if cond is None:
+        return False, "no condition"
+    cases = set()
+    has_default = False
+    for n in walk(sw):
+        if n.get("k") == "CaseStmt" and "v" in n:
+            lo, hi = n["v"], n.get("v2", n["v"])
+            cases |= set(range(lo, hi + 1))
+        if n.get("k") == "DefaultStmt":
+            has_default = True
+    if has_default:
+        return False, "has a default arm"
+    # (a) enum
+    raw = sw["c"][0]
+    x = raw
+    while x is not None and x.get("k") in ("ImplicitCastExpr", "ParenExpr") and x.get("c"):
+        x = x["c"][0]
+    t = notpl((x.get("ct") or x.get("t") or "").replace("const ", "").strip())
+    en = prog.enums.get(t)
+    if en:
+        need = set(c["v"] for c in en["consts"])
+        if need <= cases:
+            return True, "covers every enumerator of %s" % t
+        return False, "misses enumerators %s of %s" % (sorted(need - cases), t)
+    # (b) x % N, x unsigned
+    if cond.get("k") == "BinaryOperator" and cond.get("op") == "%":
+        n = folded(cond["c"][1])
+        lhs = strip(cond["c"][0])
+        if n and lhs is not None and lhs.get("sg") is False and set(range(n)) <= cases:
+            return True, "covers every residue modulo %d" % n
+    return False, "controlling expression is neither an enumeration nor an unsigned residue"
+
+
+def rule_exit_status(prog, fixture=False):
+    r = RuleResult("R-C07-3", "main returns only 0, 1 or 2; exit/abort/terminate are called nowhere except "
+                   "directly after an exhaustive switch all of whose arms leave the function",
+                   floor=0 if fixture else 5)
+    main = prog.fn1("main")
+    k = 0
+    for n in main.walk():
+        if n.get("k") != "ReturnStmt":
+            continue
+        k += 1
+        key = "%s::main::return#%d" % (main.relfile(), k)
+        if not n.get("c"):
+            r.add(key, main.loc(n), False, "return without a value")
+            continue
+        vs = value_set(prog, main, n["c"][0])
+        if vs is None:
+            r.add(key, main.loc(n), False, "exit status %s is not provably one of 0, 1, 2" % show(n["c"][0]))
+        elif not vs <= {0, 1, 2}:
+            r.add(key, main.loc(n), False, "exit status can be %s" % sorted(vs))
+        else:
+            r.add(key, main.loc(n), True, "status in %s" % sorted(vs))
+    for fn in prog.functions.values():
+        for n in fn.walk():
+            if n.get("k") != "CallExpr":
+                continue
+            q = notpl(n.get("q") or "")
+            if q not in TERMINATORS:
+                continue
+            key = "%s::%s::%s()" % (fn.relfile(), fn.qn, q)
+            pos = fn.where().get(n["i"])
+            ok, why = False, "not preceded by an exhaustive switch"
+            if pos is not None:
+                b = pos[0]
+                preds = [p for p in fn.cfg.pred[b] if p in fn.cfg.reachable()]
+                if not preds:
+                    ok, why = True, "unreachable in the CFG"
+                else:
+                    ok = True
+                    for p in preds:
+                        pb = fn.cfg.blocks[p]
+                        if pb.get("termk") != "SwitchStmt" or pb.get("term") is None:
+                            ok, why = False, "reachable other than from a switch's no-match edge"
+                            break
+                        sw = fn.nodes.get(pb["term"])
+                        ex, why = _exhaustive_switch(prog, fn, sw)
+                        if not ex:
+                            ok = False
+                            break
+            r.add(key, fn.loc(n), ok, ("%s() is unreachable: the switch %s" % (q, why)) if ok else
+                  "%s() can be reached (%s): the process would die instead of returning from main" % (q, why))
+    return r
+
+
+# ---------------------------------------------------------------- R-C07-5
+def _loops_without_condition(fn):
+    for n in fn.walk():
+        k = n.get("k")
+        if k == "ForStmt":
+            if "cond" not in n.get("parts", {}):
+                yield n, n["c"][n["parts"]["body"]] if "body" in n.get("parts", {}) else None
+        elif k == "WhileStmt":
+            c = n["c"][n["parts"]["cond"]]
+            if folded(c) not in (None, 0):
+                yield n, n["c"][n["parts"]["body"]]
+        elif k == "DoStmt":
+            c = n["c"][1] if len(n.get("c", [])) > 1 else None
+            if c is not None and folded(c) not in (None, 0):
+                yield n, n["c"][0]
+
+
+def _leaves_loop(stmt):
+    """Statement (sub)tree contains return/throw, or a break not nested in an inner loop/switch."""
+    def rec(x, inner):
+        k = x.get("k")
+        if k in ("ReturnStmt", "CXXThrowExpr"):
+            return True
+        if k == "BreakStmt" and not inner:
+            return True
+        nxt = inner or k in ("ForStmt", "WhileStmt", "DoStmt", "CXXForRangeStmt", "SwitchStmt")
+        return any(rec(c, nxt) for c in x.get("c", []))
+    return rec(stmt, False)
+
+
+def _always_leaves(stmt):
+    k = stmt.get("k")
+    if k in ("ReturnStmt", "CXXThrowExpr", "BreakStmt"):
+        return True
+    if k == "ExprWithCleanups" and stmt.get("c"):
+        return _always_leaves(stmt["c"][0])
+    if k == "CompoundStmt":
+        return bool(stmt.get("c")) and _always_leaves(stmt["c"][-1])
+    if k == "IfStmt":
+        p = stmt.get("parts", {})
+        return "else" in p and _always_leaves(stmt["c"][p["then"]]) and _always_leaves(stmt["c"][p["else"]])
+    return False
+
+
+def rule_reading_loops(prog, fixture=False):
+    r = RuleResult("R-C07-5", "a loop without a terminating condition that reads from the image file has an "
+                   "exit governed by how much data the read returned", floor=0 if fixture else 1)
+    keys = _read_calls(prog)
+    for fn in prog.functions.values():
+        for li, (loop, body) in enumerate(_loops_without_condition(fn)):
+            if body is None:
+                continue
+            key = "%s::%s::loop#%d" % (fn.relfile(), fn.qn, li + 1)
+            reads = []
+            for n in walk(body):
+                if n.get("k") == "VarDecl" and n.get("c"):
+                    init = strip_all(n["c"][0])
+                    while init is not None and init.get("k") == "CXXConstructExpr" and len(init.get("c", [])) == 1:
+                        init = strip_all(init["c"][0])
+                    if init is not None and init.get("k") == "CXXMemberCallExpr" and init.get("fn") in keys:
+                        reads.append(n)
+            if not reads:
+                r.add(key, fn.loc(loop), True, "does not read from the file", nontrivial=False)
+                continue
+            for rd in reads:
+                did = rd["d"]
+                aliases = _size_aliases(fn, did)
+                ok = False
+                for n in walk(body):
+                    if n.get("k") != "IfStmt":
+                        continue
+                    cond = n["c"][n["parts"]["cond"]]
+                    if not any(_is_sizeish(x, did, aliases) for x in walk(cond)):
+                        continue
+                    # which branch is taken when the read came up short?
+                    for outcome, part in ((True, "then"), (False, "else")):
+                        if part not in n["parts"]:
+                            continue
+                        short = False
+                        for f in flow.atomise(cond, outcome):
+                            if f[0] != "C":
+                                continue
+                            l, rel, rr = f[1], f[2], f[3]
+                            if _is_sizeish(rr, did, aliases):
+                                l, rel, rr = rr, flow.SWAP[rel], l
+                            if _is_sizeish(l, did, aliases) and rel in ("<", "<=", "!="):
+                                short = True
+                        if short and _always_leaves(n["c"][n["parts"][part]]):
+                            ok = True
+                r.add(key + "::" + rd["n"], fn.loc(loop), ok, "" if ok else
+                      "the loop has no terminating condition and no exit that depends on the size of `%s`: at end "
+                      "of file read() returns nothing and the loop never ends" % rd["n"])
+    return r
+
+
+# ---------------------------------------------------------------- R-C07-6
+ALLOC_METHODS = {"resize", "reserve"}
+
+
+class Taint:
+    """Field-based, context-insensitive taint of values assembled from >= 3
+    bytes of the image file (32-bit size/offset fields)."""
+
+    def __init__(self, prog):
+        self.prog = prog
+        self.sources = set()
+        for f in prog.functions.values():
+            if self._is_wide_decoder(f):
+                self.sources.add(f.key)
+        self.t_decl = set()    # tainted locals / params / fields (decl ids are per-TU; key with unit)
+        self.t_field = set()   # qualified field names
+        self.t_param = set()   # (function key, index)
+        self.t_ret = set(self.sources)
+        self._solve()
+
+    @staticmethod
+    def _is_wide_decoder(f):
+        if not f.params:
+            return False
+        ptr_params = {p["d"] for p in f.params if "*" in (p.get("ct") or p.get("t") or "")}
+        if not ptr_params:
+            return False
+        for n in f.walk():
+            if n.get("k") == "ReturnStmt":
+                for x in walk(n):
+                    if x.get("k") == "BinaryOperator" and x.get("op") == "<<":
+                        sh = folded(x["c"][1])
+                        if sh is not None and sh >= 16:
+                            for y in walk(x["c"][0]):
+                                if y.get("k") == "ArraySubscriptExpr":
+                                    base = strip_all(y["c"][0])
+                                    if base.get("k") == "DeclRefExpr" and base.get("d") in ptr_params:
+                                        return True
+        return False
+
+    def dkey(self, f, d):
+        return (f.unit["unit"], d)
+
+    def tainted(self, f, e, depth=0):
+        e0 = e
+        e = strip(e)
+        if e is None or depth > 30:
+            return False
+        k = e.get("k")
+        w = e.get("w")
+        if w is not None and w <= 16:
+            return False   # bounded by its type
+        if k == "DeclRefExpr":
+            if e.get("dk") in ("Var", "ParmVar", "Binding"):
+                return self.dkey(f, e["d"]) in self.t_decl
+            return False
+        if k == "MemberExpr":
+            if e.get("dk") == "Field":
+                return notpl(e.get("q")) in self.t_field
+            return False
+        if is_call(e):
+            q = notpl(e.get("q") or "")
+            if e.get("fn") in self.t_ret:
+                return True
+            if q in ("std::min",):
+                args = call_args(e)
+                return all(self.tainted(f, a, depth + 1) for a in args)
+            if k in ("CXXConstructExpr", "CXXTemporaryObjectExpr", "CXXFunctionalCastExpr") and len(e.get("c", [])) == 1:
+                return self.tainted(f, e["c"][0], depth + 1)
+            return False
+        if k in ("BinaryOperator",):
+            if e.get("op") in ("<", "<=", ">", ">=", "==", "!=", "&&", "||", ","):
+                return False
+            if e.get("op") in ("%", "&"):
+                # bounded by the right operand when that is untainted
+                return self.tainted(f, e["c"][0], depth + 1) and self.tainted(f, e["c"][1], depth + 1)
+            if e.get("op") == "/":
+                return self.tainted(f, e["c"][0], depth + 1)
+            return any(self.tainted(f, c, depth + 1) for c in e.get("c", []))
+        if k in ("UnaryOperator", "CStyleCastExpr", "CXXStaticCastExpr", "CXXFunctionalCastExpr", "ImplicitCastExpr",
+                 "ParenExpr", "ConditionalOperator"):
+            cs = e.get("c", [])
+            if k == "ConditionalOperator":
+                cs = cs[1:]
+            return any(self.tainted(f, c, depth + 1) for c in cs)
+        return False
+
+    def _solve(self):
+        prog = self.prog
+        changed = True
+        rounds = 0
+        while changed and rounds < 50:
+            changed = False
+            rounds += 1
+            for f in prog.functions.values():
+                # params
+                for i, p in enumerate(f.params):
+                    if (f.key, i) in self.t_param and self.dkey(f, p["d"]) not in self.t_decl:
+                        self.t_decl.add(self.dkey(f, p["d"]))
+                        changed = True
+                for ini in f.raw.get("inits", []):
+                    if ini.get("member") and ini.get("init") and self.tainted(f, ini["init"]):
+                        q = "%s::%s" % (notpl(f.cls or ""), ini["member"])
+                        if q not in self.t_field:
+                            self.t_field.add(q)
+                            changed = True
+                for n in f.walk():
+                    k = n.get("k")
+                    if k == "VarDecl" and n.get("c") and self.tainted(f, n["c"][0]):
+                        dk = self.dkey(f, n["d"])
+                        if dk not in self.t_decl:
+                            self.t_decl.add(dk)
+                            changed = True
+                    elif k in ("BinaryOperator", "CompoundAssignOperator") and n.get("op") in flow.ASSIGN_OPS:
+                        if self.tainted(f, n["c"][1]):
+                            tgt = strip_all(n["c"][0])
+                            if tgt.get("k") == "DeclRefExpr":
+                                dk = self.dkey(f, tgt["d"])
+                                if dk not in self.t_decl:
+                                    self.t_decl.add(dk)
+                                    changed = True
+                            elif tgt.get("k") == "MemberExpr" and tgt.get("dk") == "Field":
+                                q = notpl(tgt.get("q"))
+                                if q not in self.t_field:
+                                    self.t_field.add(q)
+                                    changed = True
+                    elif k == "ReturnStmt" and n.get("c") and self.tainted(f, n["c"][0]):
+                        if f.key not in self.t_ret:
+                            self.t_ret.add(f.key)
+                            changed = True
+                    if is_call(n) and n.get("fn"):
+                        args = call_args(n)
+                        if n.get("k") == "CXXOperatorCallExpr":
+                            continue
+                        keys = prog.overriders(n["fn"]) if n.get("virt") else {n["fn"]}
+                        for i, a in enumerate(args):
+                            if self.tainted(f, a):
+                                for kk in keys:
+                                    if (kk, i) not in self.t_param and prog.by_key.get(kk):
+                                        self.t_param.add((kk, i))
+                                        changed = True
+
+
+def rule_alloc_taint(prog, fixture=False):
+    r = RuleResult("R-C07-6", "a 32-bit size read from the image file never sizes an allocation "
+                   "(resize/reserve/sized construction/new[]) unless clamped by an untainted bound",
+                   floor=0 if fixture else 5)
+    t = Taint(prog)
+    r.info["sources"] = sorted(notpl(prog.callees[k]["q"]) for k in t.sources if k in prog.callees)
+    r.info["tainted_fields"] = sorted(t.t_field)
+    if not fixture and not t.sources:
+        raise AnalysisBroken("no wide little-endian field decoder found (anchor le_quad vanished)")
+    for fn in prog.functions.values():
+        g = None
+        idx = 0
+        for n in fn.walk():
+            sink = None
+            k = n.get("k")
+            if k == "CXXMemberCallExpr":
+                callee = strip(n["c"][0])
+                if callee and callee.get("n") in ALLOC_METHODS and len(n["c"]) >= 2:
+                    sink = (callee.get("n"), n["c"][1])
+            elif k in ("CXXConstructExpr", "CXXTemporaryObjectExpr"):
+                cls = notpl(n.get("cls") or "")
+                if cls in ("std::vector", "std::basic_string", "std::__cxx11::basic_string", "std::deque") and n.get("c"):
+                    a0 = strip(n["c"][0])
+                    if a0 is not None and a0.get("w") and not (a0.get("ct") or a0.get("t") or "").startswith("std::"):
+                        sink = ("sized " + cls, n["c"][0])
+            elif k == "CXXNewExpr" and n.get("array") and n.get("c"):
+                sink = ("new[]", n["c"][0])
+            if sink is None:
+                continue
+            idx += 1
+            what, arg = sink
+            key = "%s::%s::%s(%s)" % (fn.relfile(), fn.qn, what, show(arg))
+            if not t.tainted(fn, arg):
+                r.add(key, fn.loc(n), True, "size does not derive from a 32-bit file field",
+                      nontrivial=False)
+                continue
+            if g is None:
+                g = Guards(fn)
+            clamped = False
+            for l, rel, rr in (g.cmps(n) or []):
+                if rel in ("<", "<=") and same_expr(l, arg) and not t.tainted(fn, rr):
+                    clamped = True
+            r.add(key, fn.loc(n), clamped, "clamped by a dominating upper bound" if clamped else
+                  "%s is sized by `%s`, which derives from a 32-bit field of the image file (via %s) with no "
+                  "upper bound: a tiny hostile file can demand gigabytes" %
+                  (what, show(arg), ", ".join(r.info["sources"]) or "?"))
+    return r
+
+
 def run(ctx):
     prog = ctx.prog("dfs", "N")
-    return [rule_throw_types(prog), rule_short_reads(prog), rule_optional_access(prog)]
+    return [rule_throw_types(prog), rule_containment(prog), rule_exit_status(prog), rule_short_reads(prog),
+            rule_reading_loops(prog), rule_alloc_taint(prog), rule_optional_access(prog)]
 
 
 SELFTESTS = [
     (rule_throw_types, ["c07_throw_bad.cc"], ["c07_throw_good.cc"], "throw"),
     (rule_optional_access, ["c07_opt_bad.cc"], ["c07_opt_good.cc"], "use_unchecked"),
     (rule_short_reads, ["c07_read_bad.cc"], ["c07_read_good.cc"], "parse_header"),
+    (rule_containment, ["c07_main_bad.cc"], ["c07_main_good.cc"], "parse"),
+    (rule_exit_status, ["c07_main_bad.cc"], ["c07_main_good.cc"], "return#"),
+    (rule_exit_status, ["c07_main_bad.cc"], ["c07_main_good.cc"], "abort()"),
+    (rule_reading_loops, ["c07_loop_bad.cc"], ["c07_loop_good.cc"], "scan"),
+    (rule_alloc_taint, ["c07_loop_bad.cc"], ["c07_loop_good.cc"], "resize"),
 ]
